@@ -80,6 +80,10 @@ def make (spec0):
         ax [0] = (ax [0][0] + 300.0, ax [0][1], ax [0][2]) if abs (ax [0][0]) < 100 else ax [0]
     else:
         ax = [draw_axis (rng, 100) for k in range (3)]
+    if kind == 'near' and rng.random () < 0.2:
+        # totals that are multiples of one hundred, computed for real
+        cnt = [(100, 1, 1), (1, 100, 1), (1, 1, 100), (10, 10, 1), (10, 5, 2), (4, 5, 5), (25, 4, 1), (5, 5, 8), (2, 50, 1), (50, 2, 2)] [int (rng.integers (0, 10))]
+        ax  = [(a [0], a [1] if a [1] != 0 else 0.1, n) for a, n in zip (ax, cnt)]
     return dict (route = route, kind = kind, ax = [list (a) for a in ax])
 # end def make
 
@@ -118,6 +122,12 @@ def check (spec0):
                 m.near_field_iter = lambda: iter (())
             try:
                 common.guarded (lambda: m.compute_near_field (start, inc, nvec), 'compute_near_field')
+                if spec ['kind'] == 'near':
+                    mon ['near.values'] = 1
+                    N = nvec [0] * nvec [1] * nvec [2]
+                    if len (m.e_field) != N or len (m.h_field) != N:
+                        viol.append (dict (monitor = 'near.values', key = 'near-point-count'
+                                          , msg = '%d E and %d H field values for %d x %d x %d points' % (len (m.e_field), len (m.h_field), nvec [0], nvec [1], nvec [2])))
             finally:
                 if spec ['kind'] == 'near-grid':
                     del m.near_field_iter
